@@ -163,7 +163,7 @@ func pow2(n uint) *big.Int { return new(big.Int).Lsh(big.NewInt(1), n) }
 
 func genC19(c *Ctx) error {
 	c.ShardSize = 8
-	c.Notes["rule"] = "each case: fresh chaincode; a fee setting (share 0..100%+1, floor, cap incl. 0, own/foreign currency with buyToken rate), optional fee address, rates and limits for buy/buy-back, genesis allowed balances; then 15-30 signed operations through real batches with amounts at the break points of the configuration (raw fee = floor, = cap, +-1; limit bounds +-1; exact balance, balance+1, balance minus fee; 2^64, 2^256; in a third of the cases buy / buy-back amounts of 30-45 bits with funded parties, so that amount x rate lies on both sides of 2^64). Observed: error class and the complete balance projection after every operation, token metadata and predictFee at the end. Non-trivial: at least one successful transfer with a positive fee or one successful buy/buy-back."
+	c.Notes["rule"] = "each case: fresh chaincode; a fee setting (share 0..100%+1, floor, cap incl. 0, own/foreign currency with buyToken rate), optional fee address, rates and limits for buy/buy-back, genesis allowed balances; then 15-30 signed operations through real batches with amounts at the break points of the configuration (raw fee = floor, = cap, +-1; limit bounds +-1; exact balance, balance+1, balance minus fee; 2^64, 2^256; in a third of the cases buy / buy-back amounts of 30-45 bits with funded parties, so that amount x rate lies on both sides of 2^64). Now and then the access-control service re-binds an address to another user. Observed: error class and the complete balance projection after every operation, token metadata and predictFee at the end. Non-trivial: at least one successful transfer with a positive fee or one successful buy/buy-back."
 	n := c.N(160, 2500)
 	for i := 0; i < n; i++ {
 		if err := c19Case(c, i); err != nil {
@@ -286,6 +286,14 @@ func c19Case(c *Ctx, idx int) error {
 	var errs []string
 	var jsteps []interface{}
 	positiveFee, bought := false, false
+	var xops []string
+	uidNum := map[string]int{"U1": 1, "U3": 3, "FA": 5, "ISS": 6, "U9": 9}
+	var uids []string // the bindings at the start
+	for _, a := range w.Accounts {
+		if a.UserID != "" {
+			uids = append(uids, fmt.Sprintf("(%d, %d)", a.N(), uidNum[a.UserID]))
+		}
+	}
 	exec := func(o c19Op) {
 		before := w.Balances("tt", cw.in)
 		msg := cw.run(o)
@@ -294,6 +302,7 @@ func c19Case(c *Ctx, idx int) error {
 		steps = append(steps, fmt.Sprintf("(%s, %s)", e, coqBals(after)))
 		errs = append(errs, e)
 		jsteps = append(jsteps, map[string]interface{}{"op": o, "error": msg})
+		xops = append(xops, "XOp ("+cw.term(o)+")")
 		c.Count("op_" + o.Kind)
 		if e == "None" {
 			c.Count("ok_" + o.Kind)
@@ -385,6 +394,13 @@ func c19Case(c *Ctx, idx int) error {
 		case r < 92:
 			cur := []string{"CURA", "CURB", "CURB"}[rng.Intn(3)]
 			exec(c19Op{Kind: "buyBack", Sender: s.N(), Amount: atBounds("buyBack", cur, dealAmount(rng, whale)), Cur: cur})
+		case r < 94:
+			// the access-control service re-binds an address to another user (or to the user of another address): whether a
+			// transfer between two addresses is free of fee follows the binding in force when it runs
+			a := []*Account{u1, u2, u3}[rng.Intn(3)]
+			a.UserID = []string{"U1", "U3", "U9"}[rng.Intn(3)]
+			xops = append(xops, fmt.Sprintf("XRebind %d %d", a.N(), uidNum[a.UserID]))
+			c.Count("user_rebound")
 		case r < 95:
 			exec(c19Op{Kind: "setFee", Sender: fs.N(), Cur: []string{"TT", "CURA", "NOPE"}[rng.Intn(3)], A: z(shares[rng.Intn(len(shares))]), B: z(floors[rng.Intn(len(floors))]), C: z(caps[rng.Intn(len(caps))])})
 		case r < 98:
@@ -434,17 +450,7 @@ func c19Case(c *Ctx, idx int) error {
 			preds = append(preds, fmt.Sprintf("(%s, None)", coqZ(a)))
 		}
 	}
-	var uids []string
-	for _, a := range w.Accounts {
-		if a.UserID != "" {
-			id := map[string]int{"U1": 1, "U3": 3, "FA": 5, "ISS": 6}[a.UserID]
-			uids = append(uids, fmt.Sprintf("(%d, %d)", a.N(), id))
-		}
-	}
-	opTerms := make([]string, 0, len(steps))
-	for _, js := range jsteps {
-		opTerms = append(opTerms, cw.term(js.(map[string]interface{})["op"].(c19Op)))
-	}
+	opTerms := xops
 	env := fmt.Sprintf("(TEnv 1 %d %d %d %s)", iss.N(), fs.N(), fs.N(), coqList(uids))
 	term := fmt.Sprintf("mkCase %s %s %s %s (%s) %s %s %s %s", env, coqBals(init), coqList(opTerms), coqList(steps),
 		feeTerm, faTerm, coqList(rates), coqZ(new(big.Int).SetBytes(meta.GetTotalEmission())), coqList(preds))
